@@ -2545,6 +2545,39 @@ M('C09', 'rewritten-dec-224', TY, _DEC_DEF, _DEC_METHOD.replace("if first < 224:
 M('C09', 'rewritten-enc-limit-8383', TY, _ENC_DEF, _ENC_STATIC.replace("_TWO_OCTET_LIMIT = 8384", "_TWO_OCTET_LIMIT = 8383"), 'C09.1')
 M('C09', 'rewritten-enc-high-octet', TY, _ENC_DEF, _ENC_STATIC.replace("(n >> 8) + 192", "(n >> 8) | 128"), 'C09.1')
 
+# --- C09 second round: value-dependent special cases, `or` defaults, cached values, widths wrong only above a threshold, fixed too-small widths
+M('C09', 'count-zero-means-default', FL, "        return (16 + (self._count & 15)) << ((self._count >> 4) + 6)", "        c = self._count or self.halg.tuned_count\n        return (16 + (c & 15)) << ((c >> 4) + 6)", 'C09.4')
+M('C09', 'count-zero-means-96', FL, "        return (16 + (self._count & 15)) << ((self._count >> 4) + 6)", "        c = self._count or 96\n        return (16 + (c & 15)) << ((c >> 4) + 6)", 'C09.4')
+M('C09', 'count-first-store-wins', FL, "            raise ValueError(\"count must be between 0 and 256\")\n        self._count = val", "            raise ValueError(\"count must be between 0 and 256\")\n        if getattr(self, '_count', 0) == 0:\n            self._count = val", 'C09.4')
+M('C09', 'count-special-255', FL, "        return (16 + (self._count & 15)) << ((self._count >> 4) + 6)", "        if self._count == 255:\n            return 65011712 - 1\n        return (16 + (self._count & 15)) << ((self._count >> 4) + 6)", 'C09.4')
+M('C09', 'enc-special-1000', TY, "            elif 8384 > nl:\n                elen", "            elif nl == 1003:\n                return b'\\xFF' + Header.int_to_bytes(nl, 4)\n\n            elif 8384 > nl:\n                elen", 'C09.1')
+M('C09', 'enc-five-width-3-below-2-24', TY, "            return b'\\xFF' + Header.int_to_bytes(nl, 4)", "            return b'\\xFF' + Header.int_to_bytes(nl, 4 if nl >= (1 << 16) else 3)", 'C09.1')
+M('C09', 'enc-five-fixed-to-bytes-3', TY, "            return b'\\xFF' + Header.int_to_bytes(nl, 4)", "            return b'\\xFF' + nl.to_bytes(3, 'big')", 'C09.1')
+M('C09', 'enc-two-octet-to-bytes-1', TY, "                return Header.int_to_bytes(elen, 2)", "                return (elen & 0xFF).to_bytes(1, 'big') if nl > 8000 else Header.int_to_bytes(elen, 2)", 'C09.1')
+M('C09', 'dec-length-or-1', TY, "    def length(self):\n        return self._len", "    def length(self):\n        return self._len or 1", 'C09.1')
+M('C09', 'dec-five-octet-capped', TY, "                    return (self.bytes_to_int(b[offset + 1:offset + 5]), 5, False)", "                    return (self.bytes_to_int(b[offset + 1:offset + 5]) & 0x7FFFFFFF, 5, False)", 'C09.1')
+M('C09', 'dec-partial-exponent-capped', TY, "                    return (1 << (fo & 0x1f), 1, True)", "                    return (1 << min(fo & 0x1f, 24), 1, True)", 'C09.1')
+M('C09', 'llen-cached', TY, "        lf = self._lenfmt\n\n        if lf == 1:", "        if getattr(self, '_llen_cache', None) is not None:\n            return self._llen_cache\n        self._llen_cache = None\n        lf = self._lenfmt\n\n        if lf == 1:",
+  'C09.1', more=[(TY, "            else:\n                return 5\n", "            else:\n                self._llen_cache = 5\n                return 5\n")])
+M('C09', 'llen-old-or-1', TY, "            llen = self._llen\n            while 0 < llen < 4", "            llen = self._llen or 1\n            while 0 < llen < 4", 'C09.2')
+M('C09', 'llen-old-widen-once', TY, "            while 0 < llen < 4 and self.length >= (1 << (8 * llen)):\n                llen *= 2\n            return llen", "            if 0 < llen < 4 and self.length >= (1 << (8 * llen)):\n                llen *= 2\n            return llen", 'C09.2')
+M('C09', 'llen-old-sticky', TY, "                llen *= 2\n            return llen", "                llen *= 2\n            self._llen = llen\n            return llen", 'C09.2')
+M('C09', 'old-enc-width-capped-2', TY, "            return Header.int_to_bytes(nl, llen) if llen > 0 else b''", "            return Header.int_to_bytes(nl, min(llen, 2) if nl < 65536 else llen) if llen > 0 else b''", 'C09.2')
+M('C09', 'mpi-zero-bits-one-octet', PT, "            fl = ((MPIs.bytes_to_int(num[:2]) + 7) // 8)", "            fl = ((MPIs.bytes_to_int(num[:2]) + 7) // 8) or 1", 'C09.3')
+M('C09', 'mpi-writer-fixed-to-bytes', PT, "        return MPIs.int_to_bytes(self.bit_length(), 2) + MPIs.int_to_bytes(self, self.byte_length())", "        return MPIs.int_to_bytes(self.bit_length(), 2) + int(self).to_bytes(256, 'big')[-self.byte_length():]", 'C09.3')
+M('C09', 'mpi-count-above-2048-truncated', PT, "            fl = ((MPIs.bytes_to_int(num[:2]) + 7) // 8)", "            fl = min((MPIs.bytes_to_int(num[:2]) + 7) // 8, 512)", 'C09.3')
+M('C09', 'sub-typeid-special-127', ST, "        self._typeid = val & 0x7f", "        self._typeid = val & 0x7f if val != 0xff else 0", 'C09.6')
+M('C09', 'sub-critical-cached-first', ST, "    def critical_bool(self, val):\n        self._critical = val", "    def critical_bool(self, val):\n        self._critical = getattr(self, '_critical', False) or val", 'C09.6')
+M('C09', 'int-to-bytes-capped-8', TY, "        blen = max(minlen, PGPObject.int_byte_len(i), 1)\n", "        blen = min(max(minlen, PGPObject.int_byte_len(i), 1), max(minlen, 8))\n", 'C09.7')
+M('C09', 'bytes-to-int-first-8', TY, "        return int.from_bytes(b, order)", "        return int.from_bytes(b[:8], order)", 'C09.7')
+M('C09', 'tag-new-format-mask-on-write', PT, "        tag |= (self.tag) if self._lenfmt else", "        tag |= (self.tag & 0x1F) if self._lenfmt else", 'C09.8')
+M('C09', 'tag-special-old-type3-as-4', PT, "{1: 0, 2: 1, 4: 2, 0: 3}[self.llen]", "{1: 0, 2: 1, 4: 2, 0: 2}[self.llen]", 'C09.8')
+M('C09', 'partial-chain-max-2', TY, "                while partial:\n                    part_len, size, partial = _parse_len(b, total)", "                rounds = 0\n                while partial and rounds < 2:\n                    rounds += 1\n                    part_len, size, partial = _parse_len(b, total)", 'C09.8')
+M('C09', 'reader-local-relabelled', PK, "    def mtime_int(self, val):\n        self.mtime = datetime.fromtimestamp(val, timezone.utc)", "    def mtime_int(self, val):\n        self.mtime = datetime.fromtimestamp(val).replace(tzinfo=timezone.utc)", 'C09.5')
+M('C09', 'reader-other-zone', PK, "    def created_int(self, val):\n        self.created = datetime.fromtimestamp(val, timezone.utc)", "    def created_int(self, val):\n        self.created = datetime.fromtimestamp(val, tz=timezone(timedelta(hours=1)))", 'C09.5')
+M('C09', 'reader-seconds-plus-offset', SS, "    def created_int(self, val):\n        self.created = datetime.fromtimestamp(val, timezone.utc)", "    def created_int(self, val):\n        self.created = datetime.fromtimestamp(val + time.timezone, timezone.utc)", 'C09.5')
+T('C09', 'twin-reader-aware-utc-astimezone', SS, "    def created_int(self, val):\n        self.created = datetime.fromtimestamp(val, timezone.utc)", "    def created_int(self, val):\n        self.created = datetime.fromtimestamp(int(val), tz=timezone.utc).astimezone(timezone.utc)")
+
 # =============================================================================================== C20
 M('C20', 'ops-loop-forward', PGP, "            for sig in reversed(self._signatures):\n                ops = sig.make_onepass()", "            for sig in self._signatures:\n                ops = sig.make_onepass()", 'C20.2')
 M('C20', 'trailing-sigs-reversed', PGP, "                yield self._mdc\n\n            for sig in self._signatures:\n                yield sig", "                yield self._mdc\n\n            for sig in reversed(self._signatures):\n                yield sig", 'C20.2')
@@ -3151,3 +3184,82 @@ M('C20', 'yield-from-sessionkeys-after-container', PGP, "            for sig in 
   "            yield from self._signatures\n            yield self.message\n            yield from self._sessionkeys\n", 'C20.1')
 T('C20', 'twin-ops-flag-operands-swapped', PK, "        self.nested = (packet[0] == 1)\n", "        self.nested = (1 == packet[0])\n")
 M('C20', 'ops-reader-flag-two', PK, "        self.nested = (packet[0] == 1)\n", "        self.nested = (2 == packet[0])\n", 'C20.6')
+
+# ---- second held-out wave of seeded changes (C14-w2mut2/3, C20-w2mut2/3) and further kinds of loss
+POPS = "        [ keys.pop((getattr(self, 'fingerprint.keyid', '~'), None), t) for t in (True, False) ]\n"
+M('C14', 'result-pops-both-halves', PGP, POPS, "        if self._key is not None:\n            for t in (True, False):\n                keys.pop((self.fingerprint.keyid, t), None)\n", 'C14.3')
+M('C14', 'result-pops-most-recent', PGP, POPS, "        if len(keys) > 1:\n            keys.popitem()\n", 'C14.3')
+M('C14', 'result-del-public-half', PGP, POPS, "        if (self.fingerprint.keyid, True) in keys and (self.fingerprint.keyid, False) in keys:\n            del keys[(self.fingerprint.keyid, True)]\n", 'C14.3')
+T('C14', 'twin-result-pops-own-entry', PGP, POPS, "        if self._key is not None:\n            keys.pop((self.fingerprint.keyid, self.is_public), None)\n")
+T('C14', 'twin-result-noop-pop-loop', PGP, POPS, "        for t in (True, False):\n            keys.pop((getattr(self, 'fingerprint.keyid', '~'), None), t)\n")
+M('C14', 'result-filtered-to-primaries-with-uids', PGP, "        # return {'keys': keys, 'orphaned': orphaned}\n        return keys\n", "        return collections.OrderedDict((k, v) for k, v in keys.items() if v._uids)\n", 'C14.3')
+M('C14', 'filing-skips-known-key', PGP, "                    if pgpobj.is_primary:\n                        keys[(pgpobj.fingerprint.keyid, pgpobj.is_public)] = pgpobj\n",
+  "                    if pgpobj.is_primary:\n                        if (pgpobj.fingerprint.keyid, pgpobj.is_public) not in keys:\n                            keys[(pgpobj.fingerprint.keyid, pgpobj.is_public)] = pgpobj\n", 'C14.3')
+UACOPY = "        _bytes += self.subpackets.__bytearray__()\n        return _bytes\n\n    def parse(self, packet):\n        super(UserAttribute, self).parse(packet)\n"
+M('C14', 'user-attribute-copy-from-image', PK, UACOPY,
+  "        _bytes += self.subpackets.__bytearray__()\n        return _bytes\n\n    def __copy__(self):\n        ua = UserAttribute()\n        ua.header = copy.copy(self.header)\n        ua.subpackets['Image'] = copy.copy(self.image)\n        ua.update_hlen()\n        return ua\n\n"
+  "    def parse(self, packet):\n        super(UserAttribute, self).parse(packet)\n", 'C14.4')
+T('C14', 'twin-user-attribute-copy-complete', PK, UACOPY,
+  "        _bytes += self.subpackets.__bytearray__()\n        return _bytes\n\n    def __copy__(self):\n        ua = UserAttribute()\n        ua.header = copy.copy(self.header)\n        ua.subpackets = copy.copy(self.subpackets)\n        return ua\n\n"
+  "    def parse(self, packet):\n        super(UserAttribute, self).parse(packet)\n")
+M('C14', 'signature-packet-copy-drops-unhashed', PK, "        spkt.subpackets = copy.copy(self.subpackets)\n        spkt.hash2 = copy.copy(self.hash2)",
+  "        for sp in self.subpackets._hashed_sp.values():\n            spkt.subpackets['h_' + sp.__class__.__name__] = sp\n        spkt.hash2 = copy.copy(self.hash2)", 'C14.4')
+M('C14', 'key-packet-copy-without-material', PK, "        pk.pkalg = self.pkalg\n        pk.keymaterial = copy.copy(self.keymaterial)\n\n        return pk", "        pk.pkalg = self.pkalg\n\n        return pk", 'C14.4')
+M('C14', 'uid-copy-from-derived-view', PGP, "        uid |= copy.copy(self._uid)\n        for sig in self._signatures:", "        uid |= UserID.new(self.name, comment=self.comment, email=self.email)\n        for sig in self._signatures:", 'C14.4')
+M('C14', 'key-copy-userids-view', PGP, "        for uid in self._uids:\n            key |= copy.copy(uid)\n", "        for uid in self.userids:\n            key |= copy.copy(uid)\n", 'C14.4')
+SIGARM = "        elif isinstance(other, PGPSignature):\n            self._signatures.insort(other)\n"
+M('C14', 'or-signature-dedup', PGP, SIGARM, "        elif isinstance(other, PGPSignature):\n            if not any(s.created == other.created and s.signer == other.signer and s.type == other.type for s in self._signatures):\n                self._signatures.insort(other)\n", 'C14.5')
+M('C14', 'or-signature-expired-refused', PGP, SIGARM, "        elif isinstance(other, PGPSignature) and not other.is_expired:\n            self._signatures.insort(other)\n", 'C14.5')
+M('C14', 'or-signature-resorted-by-time', PGP, SIGARM, "        elif isinstance(other, PGPSignature):\n            self._signatures.insort(other)\n            self._signatures = SorteDeque(sorted(self._signatures, key=lambda s: s.created, reverse=True))\n", 'C14.5')
+M('C14', 'uid-or-signature-dedup', PGP, "        if isinstance(other, PGPSignature):\n            self._signatures.insort(other)\n            if self.parent is not None and self in self.parent._uids:",
+  "        if isinstance(other, PGPSignature):\n            if other not in self._signatures:\n                self._signatures.insort(other)\n            if self.parent is not None and self in self.parent._uids:", 'C14.5')
+M('C14', 'export-sorted-by-creation', PGP, KEYSIGS, "        for sig in sorted((s for s in self._signatures if not s.embedded and s.exportable), key=lambda s: s.created):\n            _bytes += sig.__bytearray__()\n", 'C14.1')
+M('C20', 'zip-window-13', CO, "            return zlib.decompress(data, -15)", "            return zlib.decompress(data, -13)", 'C20.5')
+M('C20', 'zip-decompress-zlib-container', CO, "            return zlib.decompress(data, -15)", "            return zlib.decompress(data)", 'C20.5')
+M('C20', 'zlib-compress-raw', CO, "        if self is CompressionAlgorithm.ZLIB:\n            return zlib.compress(data)\n", "        if self is CompressionAlgorithm.ZLIB:\n            return zlib.compress(data)[2:-4]\n", 'C20.5')
+T('C20', 'twin-zip-wbits-keyword', CO, "            return zlib.decompress(data, -15)", "            return zlib.decompress(data, wbits=-zlib.MAX_WBITS)")
+M('C20', 'literal-time-local-relabelled', PK, "        self.mtime = datetime.fromtimestamp(val, timezone.utc)\n\n    @mtime.register(bytes)", "        self.mtime = datetime.fromtimestamp(val).replace(tzinfo=timezone.utc)\n\n    @mtime.register(bytes)", 'C20.6')
+M('C20', 'literal-time-local-naive', PK, "        self.mtime = datetime.fromtimestamp(val, timezone.utc)\n\n    @mtime.register(bytes)", "        self.mtime = datetime.fromtimestamp(val)\n\n    @mtime.register(bytes)", 'C20.6')
+T('C20', 'twin-literal-time-utcfromtimestamp', PK, "        self.mtime = datetime.fromtimestamp(val, timezone.utc)\n\n    @mtime.register(bytes)", "        self.mtime = datetime.utcfromtimestamp(val).replace(tzinfo=timezone.utc)\n\n    @mtime.register(bytes)")
+T('C20', 'twin-literal-time-tz-keyword', PK, "        self.mtime = datetime.fromtimestamp(val, timezone.utc)\n\n    @mtime.register(bytes)", "        seconds = val\n        self.mtime = datetime.fromtimestamp(seconds, tz=timezone.utc)\n\n    @mtime.register(bytes)")
+MSGSIG = "        if isinstance(other, PGPSignature):\n            self._signatures.insort(other)\n            return self\n\n        if isinstance(other, (PKESessionKey, SKESessionKey)):\n            self._sessionkeys.append(other)\n            return self\n"
+M('C20', 'or-signature-dedup-on-import', PGP, MSGSIG, MSGSIG.replace("            self._signatures.insort(other)\n", "            if not any(s.signer == other.signer and s.created == other.created for s in self._signatures):\n                self._signatures.insort(other)\n"), 'C20.5')
+M('C20', 'or-signatures-resorted', PGP, MSGSIG, MSGSIG.replace("            self._signatures.insort(other)\n", "            self._signatures.insort(other)\n            self._signatures = SorteDeque(sorted(self._signatures, reverse=True))\n"), 'C20.5')
+M('C20', 'or-sessionkey-one-per-recipient', PGP, MSGSIG, MSGSIG.replace("            self._sessionkeys.append(other)\n", "            if all(getattr(sk, 'encrypter', None) != getattr(other, 'encrypter', object()) for sk in self._sessionkeys):\n                self._sessionkeys.append(other)\n"), 'C20.5')
+M('C20', 'or-skesk-refused', PGP, MSGSIG, MSGSIG.replace("(PKESessionKey, SKESessionKey)", "PKESessionKey"), 'C20.5')
+M('C20', 'trailing-sigs-sorted-by-time', PGP, "            for sig in self._signatures:\n                yield sig\n\n    def __or__(self, other):\n        if isinstance(other, Marker):", "            for sig in sorted(self._signatures, key=lambda s: s.created):\n                yield sig\n\n    def __or__(self, other):\n        if isinstance(other, Marker):", 'C20.2')
+# =============================================================================================== C18.8 / C18.9 (wave-2 seeded shapes) and further kinds
+TYP = 'pgpy/packet/types.py'
+_SUBKEY = "            npk = PrivSubKeyV4()\n            npk.pkalg = key._key.pkalg\n            npk.created = key._key.created\n            npk.keymaterial = key._key.keymaterial\n            key._key = npk\n"
+T('C18', 'twin-subkey-conversion-source-temp', PGP, _SUBKEY,
+  "            primary_packet = key._key\n            sub_packet = PrivSubKeyV4()\n            sub_packet.created = primary_packet.created\n            sub_packet.keymaterial = primary_packet.keymaterial\n            sub_packet.pkalg = primary_packet.pkalg\n            key._key = sub_packet\n")
+T('C18', 'twin-packet-copy-renamed-reordered', PK, "        pk = self.__class__()\n        pk.header = copy.copy(self.header)\n        pk.created = self.created\n        pk.pkalg = self.pkalg\n        pk.keymaterial = copy.copy(self.keymaterial)\n\n        return pk",
+  "        source = self\n        dup = source.__class__()\n        dup.pkalg = source.pkalg\n        material = copy.copy(source.keymaterial)\n        dup.keymaterial = material\n        dup.created = source.created\n        dup.header = copy.copy(source.header)\n        return dup")
+M('C18', 'subkey-created-from-new-parent', PGP, "            npk.created = key._key.created\n", "            npk.created = self._key.created\n", 'C18.8')
+M('C18', 'subkey-created-left-at-now', PGP, "            npk.created = key._key.created\n", "", 'C18.8')
+M('C18', 'subkey-material-from-temp-of-parent', PGP, _SUBKEY,
+  "            old = key._key\n            mine = self._key\n            npk = PrivSubKeyV4()\n            npk.pkalg = old.pkalg\n            npk.created = old.created\n            npk.keymaterial = mine.keymaterial\n            key._key = npk\n", 'C18.8')
+M('C18', 'packet-copy-created-normalised', PK, "        pk.created = self.created\n        pk.pkalg = self.pkalg\n        pk.keymaterial = copy.copy(self.keymaterial)", "        pk.created = self.created.replace(tzinfo=None)\n        pk.pkalg = self.pkalg\n        pk.keymaterial = copy.copy(self.keymaterial)", 'C18.8')
+M('C18', 'packet-copy-keeps-default-material', PK, "        pk.pkalg = self.pkalg\n        pk.keymaterial = copy.copy(self.keymaterial)\n\n        return pk", "        pk.pkalg = self.pkalg\n        pk.keymaterial = copy.copy(pk.keymaterial)\n\n        return pk", 'C18.8')
+M('C18', 'pubkey-created-of-now-via-temp', PK, "        pk.created = self.created\n        pk.pkalg = self.pkalg\n\n        # copy over MPIs", "        stamp = datetime.now(timezone.utc)\n        pk.created = stamp\n        pk.pkalg = self.pkalg\n\n        # copy over MPIs", 'C18')
+_ECP = "        pk = self.__class__()\n        pk.bytelen = self.bytelen\n        pk.format = self.format\n        pk.x = copy.copy(self.x)\n        pk.y = copy.copy(self.y)\n        return pk"
+T('C18', 'twin-ecpoint-copy-renamed-reordered', FL, _ECP, "        src = self\n        point = src.__class__()\n        point.x = copy.copy(src.x)\n        point.y = copy.copy(src.y)\n        width = src.bytelen\n        point.format = src.format\n        point.bytelen = width\n        return point")
+T('C18', 'twin-ecdh-copy-temporaries', FL, "        pkt = super(ECDHPub, self).__copy__()\n        pkt.oid = self.oid\n        pkt.kdf = copy.copy(self.kdf)\n        return pkt", "        dup = super().__copy__()\n        kdf = copy.copy(self.kdf)\n        dup.kdf = kdf\n        dup.oid = self.oid\n        return dup")
+M('C18', 'ecpoint-copy-via-from-values-width-from-value', FL, _ECP,
+  "        if self.format == ECPointFormat.Standard:\n            bitlen = max(self.x.bit_length(), self.y.bit_length())\n        else:\n            bitlen = 8 * len(self.x)\n        return self.from_values(bitlen, self.format, copy.copy(self.x), copy.copy(self.y))", 'C18.9')
+M('C18', 'ecpoint-copy-width-recomputed', FL, "        pk.bytelen = self.bytelen\n        pk.format = self.format", "        pk.bytelen = max(self.x.byte_length(), self.y.byte_length()) if self.y is not None else 0\n        pk.format = self.format", 'C18.9')
+M('C18', 'ecpoint-copy-format-normalised', FL, "        pk.bytelen = self.bytelen\n        pk.format = self.format", "        pk.bytelen = self.bytelen\n        pk.format = ECPointFormat.Standard", 'C18.9')
+M('C18', 'ecpoint-copy-y-dropped', FL, "        pk.x = copy.copy(self.x)\n        pk.y = copy.copy(self.y)\n        return pk", "        pk.x = copy.copy(self.x)\n        pk.y = None\n        return pk", 'C18.9')
+M('C18', 'ecdh-copy-kdf-default', FL, "        pkt.oid = self.oid\n        pkt.kdf = copy.copy(self.kdf)\n        return pkt", "        pkt.oid = self.oid\n        return pkt", 'C18.9')
+M('C18', 'ecdsa-copy-oid-from-copy-itself', FL, "        pkt = super(ECDSAPub, self).__copy__()\n        pkt.oid = self.oid", "        pkt = super(ECDSAPub, self).__copy__()\n        pkt.oid = pkt.oid", 'C18.9')
+M('C18', 'material-copy-skips-first-integer', TYP, "        for m in self.__mpis__:\n            setattr(pk, m, copy.copy(getattr(self, m)))", "        for m in list(self.__mpis__)[1:]:\n            setattr(pk, m, copy.copy(getattr(self, m)))", 'C18.9')
+M('C18', 'material-copy-normalises-integers', TYP, "            setattr(pk, m, copy.copy(getattr(self, m)))", "            setattr(pk, m, MPI(abs(int(getattr(self, m)))))", 'C18.9')
+M('C18', 'pubfields-not-among-copied-integers', FL, "        for i in self.__pubfields__:\n            yield i", "        for i in self.__pubfields__[1:]:\n            yield i", 'C18.9')
+# --- other kinds
+M('C18', 'fingerprint-cached-never-invalidated', PK, "        fp = hashlib.new('sha1')\n\n        plen = self.keymaterial.publen()", "        if getattr(self, '_fpr_cache', None) is not None:\n            return self._fpr_cache\n        fp = hashlib.new('sha1')\n\n        plen = self.keymaterial.publen()",
+  'C18.1', more=[(PK, "        return Fingerprint(fp.hexdigest().upper())", "        self._fpr_cache = Fingerprint(fp.hexdigest().upper())\n        return self._fpr_cache")])
+M('C18', 'key-fingerprint-cached-on-key-object', PGP, "        if self._key:\n            return self._key.fingerprint\n", "        if self._key:\n            if getattr(self, '_fp', None) is None:\n                self._fp = self._key.fingerprint\n            return self._fp\n", 'C18.4')
+M('C18', 'keyid-first-16-digits', TY, "        return self[-16:]", "        return self[:16]", 'C18.4')
+M('C18', 'subkey-index-by-first-16-digits', PGP, "        self._children[key.fingerprint.keyid] = key\n        key._parent = self", "        self._children[key.fingerprint[:16]] = key\n        key._parent = self", 'C18.4')
+M('C18', 'signer-id-first-16-digits-via-temp', PGP, "        sig = PGPSignature.new(SignatureType.DirectlyOnKey, self.key_algorithm, hash_algo, self.fingerprint.keyid, created=prefs.pop('created', None))",
+  "        fpr = self.fingerprint\n        sig = PGPSignature.new(SignatureType.DirectlyOnKey, self.key_algorithm, hash_algo, fpr[:16], created=prefs.pop('created', None))", 'C18')
